@@ -233,7 +233,7 @@ void profile_geomapi(const json& plan, Ctx& ctx) {
 			SaveSpec sp; // raw: bounds are kept
 			SaveOut so = saveNif(*nif, sp);
 			ctx.hist.str(so.bytes);
-			auto fresh2 = std::make_unique<NifFile>();
+			auto fresh2 = restartObject(nif, ctx);
 			if (loadNif(*fresh2, so.bytes).rc != 0) ctx.viol("restart-load-failed", where);
 			nif = std::move(fresh2);
 			auto shapes = nif->GetShapes();
